@@ -1394,6 +1394,53 @@ def vd_iter(ctx, args, ci, dt):
     return IterV([Ref(c) for c in deref(args[0]).elems], 'slice')
 
 
+# ------------------------------------------------------------------------------ async plumbing (first poll segment)
+class SegmentEnd(Exception):
+    """the first suspension / observable asynchronous call was reached: the segment under analysis ends here"""
+
+    def __init__(self, why):
+        Exception.__init__(self, why)
+        self.why = why
+
+
+def mutex_lock(ctx, args, ci, dt):
+    return Opaque('mutex-lock-future', deref(args[0]))
+
+
+def into_future(ctx, args, ci, dt):
+    return args[0]
+
+
+def pin_new(ctx, args, ci, dt):
+    return Struct('Pin', [Cell(args[0])])
+
+
+def future_poll(ctx, args, ci, dt):
+    pinned = args[0]
+    fut = deref(pinned.fields[0].v) if isinstance(pinned, Struct) and pinned.name == 'Pin' else deref(pinned)
+    if isinstance(fut, Opaque) and fut.tag == 'mutex-lock-future':
+        ctx.assumptions.add('tokio::sync::Mutex::lock is polled uncontended: Ready(guard)')
+        return Enum('Poll', 0, 'Ready', [Cell(Opaque('mutex-guard', fut.data))])
+    if isinstance(fut, Coroutine):
+        return ctx.poll(fut)
+    raise SegmentEnd('poll of %r' % (fut,))
+
+
+def guard_deref(ctx, args, ci, dt):
+    g = deref(args[0])
+    m = g.data           # Opaque('mutex', Cell(value)) or the protected value itself
+    if isinstance(m, Opaque) and m.tag == 'mutex':
+        return Ref(m.data)
+    return Ref(Cell(m))
+
+
+def atomic_load(ctx, args, ci, dt):
+    a = deref(args[0])
+    if isinstance(a, Opaque) and a.tag == 'atomic':
+        return a.data
+    return a
+
+
 def m_panic(ctx, args, ci, dt):
     msg = args[0].lit.decode() if args and isinstance(args[0], S) and args[0].lit is not None else 'panic'
     raise panic(msg)
@@ -1632,6 +1679,14 @@ def install(ctx):
     M['<VecDeque as Clone>::clone'] = clone_model
     M['<&VecDeque as IntoIterator>::into_iter'] = it_into_iter_ref_vec
     M['<VecDeque as IntoIterator>::into_iter'] = it_into_iter_vec
+    M['Mutex::lock'] = mutex_lock
+    M['<{closure} as IntoFuture>::into_future'] = into_future
+    M['<_ as IntoFuture>::into_future'] = into_future
+    M['Pin::new_unchecked'] = pin_new
+    M['<_ as Future>::poll'] = future_poll
+    M['<MutexGuard as Deref>::deref'] = guard_deref
+    M['Atomic::load'] = atomic_load
+    M['AtomicBool::load'] = atomic_load
     M['panic'] = m_panic
     M['panicking::panic'] = m_panic
     M['panic_fmt'] = m_panic_fmt
